@@ -60,8 +60,17 @@ def run(rep, tier):
         else:
             rep.bad("C13.R1", jn, loc_of(ev), "suspend-guard", "join must suspend only after add_thread_exit_callback returned true (%s) and with the "
                     "handle mutex released by an RAII unlock_guard (%s): otherwise join hangs when the target already finished" % (accepted, unlocked and not_held))
-        cb = [e for _, _, e in jn.all_events() if e.get("k") == "call" and callee_short(e) == "add_thread_exit_callback"]
-        if cb and "resume_thread" in T(cb[0]) and P(cb[0]["args"][0]).startswith("this->id_"):
+        from .common import join_wakeup
+        _, jbody, jid, jreg = join_wakeup(F)
+        cb = [jreg]
+        # the callback resumes the *calling* thread: the id it hands to set_thread_state is a local initialised from
+        # get_self_id(); it is registered on the joined thread (this->id_)
+        self_id = False
+        if jid is not None and strip(jid).get("k") == "var":
+            ini = local_init(jn, strip(jid)["name"])
+            self_id = ini is not None and "get_self_id()" in T(ini)
+        resumes = any(e.get("k") == "call" and callee_short(e) == "set_thread_state" for _, _, e in jbody.all_events())
+        if cb and resumes and self_id and P(cb[0]["args"][0]).startswith("this->id_"):
             rep.ok("C13.R1", jn, "the registered callback resumes the joiner (resume_thread bound to the caller's id) on the joined thread")
         else:
             rep.bad("C13.R1", jn, jn.loc, "callback-target", "the exit callback must be registered on the joined thread and resume the joining thread")
